@@ -89,6 +89,24 @@ def do_case(ctx, inp):
         want = d[i] if i in d else (lo if dfl == "lower" else None if dfl == "nan" else hi if dfl == "upper" else dfl["const"])
         if cons[j] != want:
             ctx.fail("construct-entry-wrong", {"column": j, "id": repr(i), "got": cons[j], "want": want})
+    # the declared default in the other combinations of the two arguments: a callable decides whatever the dtype is; without
+    # one, integer dtypes of any width take the lower bound and float dtypes of any width NaN
+    combos = [("callable+float", dict(default_value=lambda v: v.bounds.upper, dtype=float), lambda lo, hi: hi),
+              ("callable+float32", dict(default_value=lambda v: 7, dtype=np.float32), lambda lo, hi: 7),
+              ("callable+float64", dict(default_value=lambda v: v.bounds.lower - 1, dtype=np.float64), lambda lo, hi: lo - 1),
+              ("callable+int32", dict(default_value=lambda v: v.bounds.upper, dtype=np.int32), lambda lo, hi: hi),
+              ("int32", dict(dtype=np.int32), lambda lo, hi: lo), ("int16", dict(dtype=np.int16), lambda lo, hi: lo),
+              ("float32", dict(dtype=np.float32), lambda lo, hi: None), ("float64", dict(dtype=np.float64), lambda lo, hi: None)]
+    name_, kw_, wf_ = combos[ctx.rng.randrange(len(combos))]
+    ctx.tags["construct-default-combination-" + name_] += 1
+    try:
+        got3 = nan_list(va.construct(dict(d), **kw_))
+    except Exception as e:
+        ctx.fail("construct-raised", {"arguments": name_, "exception": f"{type(e).__name__}: {str(e)[:160]}"}); return
+    for j, (i, (lo, hi)) in enumerate(zip(ids, bnds)):
+        w3 = d[i] if i in d else wf_(lo, hi)
+        if not (got3[j] == w3 or (got3[j] is not None and w3 is not None and float(got3[j]) == float(w3))):
+            ctx.fail("construct-entry-wrong", {"column": j, "id": repr(i), "got": got3[j], "want": w3, "arguments": name_}); return
     if lst:
         if flb != [int(i in lst) for i in ids]:
             ctx.fail("boolean-from_list-wrong", {"got": flb})
